@@ -1110,15 +1110,14 @@ class Server:
         # service's attribute values (NOTE: the value search recurses into sequences)
         matching_services = {}
         for handle, service in self.service_records.items():
-            for uuid in search_pattern.value:
-                found = False
-                for attribute in service:
-                    if ServiceAttribute.is_uuid_in_value(uuid.value, attribute.value):
-                        found = True
-                        break
-                if found:
-                    matching_services[handle] = service
-                    break
+            if all(
+                any(
+                    ServiceAttribute.is_uuid_in_value(uuid.value, attribute.value)
+                    for attribute in service
+                )
+                for uuid in search_pattern.value
+            ):
+                matching_services[handle] = service
 
         return matching_services
 
